@@ -460,7 +460,9 @@ func (w *storeWrap) GetRelationTuples(ctx context.Context, q *relationtuple.Rela
 		rs.leave(k, "list", qstr(q), "", ferr)
 		return nil, "", ferr
 	}
+	defer rs.rlock()()
 	ts, next, err := w.Manager.GetRelationTuples(ctx, q, o...)
+	rs.observe("list", q, ts, err)
 	rs.leave(k, "list", qstr(q), fmt.Sprintf("%d/%s", len(ts), next), err)
 	return ts, next, err
 }
@@ -491,7 +493,9 @@ func (t travWrap) TraverseSubjectSetRewrite(ctx context.Context, tuple *relation
 		rs.leave(k, "rewrite", tuple.String(), "", ferr)
 		return nil, ferr
 	}
+	defer rs.rlock()()
 	res, err := t.w.tr.TraverseSubjectSetRewrite(ctx, tuple, css)
+	rs.observe("rewrite", tuple, res, err)
 	rs.leave(k, "rewrite", tuple.String(), fmt.Sprint(len(res)), err)
 	return res, err
 }
